@@ -195,6 +195,78 @@ CHECKS["C07"] = dict(
     engine="tlc+replay",
 )
 
+CHECKS["C03"] = dict(
+    built=True,
+    category="model_checking",
+    technique="TLA+ spec J2O_Naming (context tree, counter families, body prefixes, function namespaces, name_fix) checked by TLC; scope/SSA walks of real exported models validated by the J2O_Scopes monitor with TLC; ONNX checker(full) + strict inference + ORT load on corpus x configurations and nested templates",
+    text=(
+        "J2O_Naming models fresh-name allocation over a tree of contexts (top graph, Loop/If bodies with parent-allocated prefixes, function scopes with their own namespace, two independent "
+        "counter families per context, name_fix) and TLC checks single assignment / no shadowing along every scope chain after name_fix (880k states). Every sampled corpus export (default opset, "
+        "opsets 21 and 26) and 57 nested control-flow / @onnx_function templates x configurations (opset, double precision, return_mode ir) must pass onnx.checker full_check, strict shape+type "
+        "inference and ORT session creation (NOT_IMPLEMENTED kernels / unsupported opsets are classified as runtime limits); an independent define/use/enter/exit walk of each ModelProto "
+        "(nested bodies, functions) is validated by J2O_Scopes with TLC; call nodes are matched with function definitions (arity, domain import, opset flow)."
+    ),
+    note="Trusted: ONNX checker, shape inference, ORT as validity oracles; TLC. Quick tier samples ~320 corpus exports, thorough runs all 3137 variants. Listed known findings: BitCast below opset 26, int32 scan nested in while under x64, explicit reduce_sum dtype under x64.",
+    design_ref="DESIGN.md §3 C03",
+    engine="tlc+trace-validation+oracles",
+)
+CHECKS["C08"] = dict(
+    built=True,
+    category="model_checking",
+    technique="J2O_Annot monitor (TLA+) validated with TLC on (declared, observed) value pairs and before/after-postprocess snapshots recorded from real exports executed in ORT",
+    text=(
+        "Every sampled export is instrumented so that each annotated main-graph value becomes an output and is executed in ORT (dynamic variants at two bindings of the symbol); the recorded "
+        "events - declared element type and dims (integer / symbol / unknown) vs the runtime tensor, plus each value's annotation right before and after postprocess_ir_model - are validated by the "
+        "J2O_Annot monitor with TLC: dtype equal, declared integer dims equal, one size per symbol per run, post-processing leaves graph inputs/outputs untouched and only weakens intermediates. "
+        "The J2O_GraphRewrite pattern graphs are pushed through the real optimizer with full metadata and checked the same way (stale shapes after a rewrite would contradict run time)."
+    ),
+    note="Values inside Loop/If bodies and function bodies are not surfaced (their number is reported as nested_scopes_not_observed). JAX2ONNX_DYNAMIC_DIM_SENTINEL is the project's spelling of an unknown dimension and treated as unknown.",
+    design_ref="DESIGN.md §3 C08",
+    engine="trace-validation(tlc)+ort",
+)
+CHECKS["C09"] = dict(
+    built=True,
+    category="model_checking",
+    technique="TLA+ spec J2O_Host (flag seen by the traced body, flag restored on every path) checked by TLC; J2O_Precision monitor validated with TLC on dtype censuses of real exports in both precisions; bit-exact float64 probes",
+    text=(
+        "J2O_Host proves FlagInBody and Quiescent (x64 restored after success and after a failure at every step). Real corpus exports in both precisions are censused recursively (tensor types, initializers, "
+        "constant attributes, Cast/ConstantOfShape targets, bodies, functions); the double clause's antecedent is decided from the jaxpr traced in 64-bit mode; the events are validated by the J2O_Precision "
+        "monitor with TLC (single => no DOUBLE and float32 outputs; double and all-float64 JAX => no FLOAT anywhere; flag as before). Twelve probes whose float64 arithmetic is exact but invisible in float32 "
+        "(1+2^-30, 2^-40 through python / NumPy / module constants, fori, while, scan, cond, @onnx_function bodies, reductions, matmul) must be reproduced BIT-exactly by the double export."
+    ),
+    note="Accuracy of inexact kernels in double mode is not predicted by the spec (no IEEE arithmetic in TLA+); the probes decide the hidden-round-trip question exactly. Requests that themselves name a float64 input under the single flag are outside the single clause. Listed known findings: mixed-dtype comparisons, histogram family, linspace num=1, mixed concatenate, atan2 f32 detour.",
+    design_ref="DESIGN.md §3 C09",
+    engine="tlc+trace-validation+probes",
+)
+CHECKS["C11"] = dict(
+    built=True,
+    category="model_checking",
+    technique="schema table of the installed onnx extracted into TLA+ facts; J2O_Opset monitor validated with TLC on node censuses of real exports at every target opset; checker + ORT load + equality with the default-opset outputs",
+    text=(
+        "For every sampled corpus testcase the export is repeated at target opsets 21 and 26 (+ newest on odd seeds; thorough: every opset 21..newest). Each node (bodies and functions included) becomes an event "
+        "[op, declared opset, attribute names, input count]; the operator versions / attributes / arity of the installed onnx.defs are generated into J2O_OpsetFacts and J2O_Opset (TLC) requires that the newest "
+        "version <= declared exists and admits the attributes and inputs used. The same exports must declare the requested opset, pass checker(full), load in ORT and produce the default-opset outputs; an export that "
+        "raises at an opset is counted as an explicit rejection."
+    ),
+    note="ORT 1.30 loads opsets <= 26, so opset-27 exports are censused and checked but not executed. Opsets 13..20 carry no claim and are not explored. Listed known finding: BitCast below opset 26.",
+    design_ref="DESIGN.md §3 C11",
+    engine="facts+trace-validation(tlc)+oracles",
+)
+CHECKS["C14"] = dict(
+    built=True,
+    category="model_checking",
+    technique="TLA+ spec J2O_Determinism (per-conversion counters, process-wide registries, iteration order) checked by TLC with rejected deviation variants; TLC-generated conversion histories replayed in fresh interpreters under several hash seeds and heap perturbation, digests compared with the no-history digest",
+    text=(
+        "J2O_Determinism models what survives a conversion (registries, caches) and what is created fresh (name / function counters) and TLC checks HistoryIndependent over all histories of length 3 over 10 request "
+        "kinds (4 of them failing); a counter kept in process state or hash-ordered iteration is rejected. The emitted histories (plus every optimizer-exercising program and corpus testcases spliced in) are replayed, "
+        "each in a fresh interpreter, under PYTHONHASHSEED 0 and others, with heap-address perturbation between conversions (node hashes are address based); the SerializeToString(deterministic=True) digest of every "
+        "request must equal its digest in a fresh process with no history."
+    ),
+    note="Plugin import order is the file-system order of the installed tree and is not permuted. Quick tier: 2 hash seeds, ~10 histories; thorough: 8 seeds, 150+ histories.",
+    design_ref="DESIGN.md §3 C14",
+    engine="tlc+replay(fresh processes)",
+)
+
 TITLES = {}
 for line in (VERIF / "properties.jsonl").read_text().splitlines():
     if line.strip():
